@@ -43,6 +43,7 @@ class FGen:
         self.funcs = {
             "<func>rhs": {"kind": "ut", "type": VT, "args": ["t", "y"], "coef": [0.5, 1.0, -2.0], "nres": 1},
             "<func>sf": {"kind": "scalar", "args": ["a0", "a1"], "coef": [1.0, 0.5, 2.0], "nres": 1},
+            "<func>sf2": {"kind": "scalar", "args": ["a0", "a1"], "coef": [0.5, 2.0, -0.5], "nres": 2},
         }
         if two_types:
             self.funcs["<func>rhs2"] = {"kind": "ut", "type": VT2, "args": ["t", "y"], "coef": [1.0, -1.0, 0.5],
@@ -177,6 +178,13 @@ class FGen:
             r = rng.random()
             if self.memory_bias and rng.random() < 0.45:
                 r = 0.3 + 0.25 * rng.random()     # user-type traffic
+            if r < 0.03:
+                # two results, both self-dependent: 'x, z <- sf2(x, z)'
+                cands = [n for n in sc["nums"] if n not in ("<t>", "<dt>")]
+                if len(cands) >= 2:
+                    a, b = rng.sample(cands, 2)
+                    ops.append(["call", [a, b], "<func>sf2", [["var", a], ["var", b]], {}, self.s()])
+                continue
             if r < 0.2:
                 rhs = self.num_expr(sc, rng.choice([1, 2, 2, 3]))
                 lhs = rng.choice(persist["nums"]) if rng.random() < 0.4 else rng.choice(["x", "y1", "z", "w", "tmp", "q"])
@@ -370,12 +378,15 @@ def registry(script):
                 ${{result}} = {fnum(c[0])} + {fnum(c[1])}*${{t}} + {fnum(c[2])}*${{y}}
                 """))
         else:
+            n = spec.get("nres", 1)
             freg = register_function(freg, name, tuple(spec["args"]), default_dict={},
-                                     result_names=("r0",), result_kinds=(Scalar(True),))
-            body = " + ".join([fnum(c[0])] + [f"{fnum(ci)}*${{{a}}}" for ci, a in zip(c[1:], spec["args"])])
-            freg = freg.register_codegen(name, "fortran", f.CallCode(f"""
-                ${{r0}} = {body}
-                """))
+                                     result_names=tuple(f"r{i}" for i in range(n)),
+                                     result_kinds=(Scalar(True),) * n)
+            lines = []
+            for i in range(n):
+                body = " + ".join([fnum(c[0] + i)] + [f"{fnum(ci)}*${{{a}}}" for ci, a in zip(c[1:], spec["args"])])
+                lines.append(f"                ${{r{i}}} = {body}")
+            freg = freg.register_codegen(name, "fortran", f.CallCode("\n" + "\n".join(lines) + "\n                "))
     return freg
 
 
